@@ -1,23 +1,24 @@
 package props
 
 import (
-	"sync"
 	"encoding/hex"
 	"fmt"
 	"reflect"
 	"sort"
+	"sync"
 
 	crstate "github.com/elastos/Elastos.ELA/cr/state"
 	"github.com/elastos/Elastos.ELA/dpos/state"
 )
 
 // c21Snap is everything the oracle compares between two instances.
-//   CheckPoint: the package's own full-state serialisation (CheckPoint.Snapshot
-//     = initFromArbitrators + Serialize + Deserialize), compared as decoded
-//     structures (maps as maps).
-//   The remaining fields are state that decides future arbiter sets but is not
-//     part of the serialised checkpoint, and the two public getters named by
-//     the property.
+//
+//	CheckPoint: the package's own full-state serialisation (CheckPoint.Snapshot
+//	  = initFromArbitrators + Serialize + Deserialize), compared as decoded
+//	  structures (maps as maps).
+//	The remaining fields are state that decides future arbiter sets but is not
+//	  part of the serialised checkpoint, and the two public getters named by
+//	  the property.
 type c21Snap struct {
 	CheckPoint             *state.CheckPoint
 	LastIrreversibleHeight uint32
